@@ -173,7 +173,13 @@ def run(ck, a):
           if isinstance(e, bool) and e:
             continue
           goals.append(z3.BoolVal(False) if isinstance(e, bool) else ab.formula(e))
-      ck.add(Ob('domain-randomisation/member%d equals the solo environment built from its system' % i, [], z3.And(goals) if goals else True, timeout=120, meta={'tag': 'dr', 'member': i}))
+      ob_ = Ob('domain-randomisation/member%d equals the solo environment built from its system' % i, [], z3.And(goals) if goals else True, timeout=120, meta={'tag': 'dr', 'member': i})
+      if goals and core.dag_count(goals, cap=60000) >= 60000:
+        # the two runs differ in so many large terms that even asserting the formula takes z3 minutes: leave it undecided and let the concrete
+        # witness search on the real wrapper decide whether there is a violation to report
+        ob_.status, ob_.smt2 = 'unknown', ''
+        ck.notes.append('domain-randomisation member %d: terms too large for the solver, decided by the concrete witness search only' % i)
+      ck.add(ob_)
   except (core.SXUnsupported, ZeroDivisionError, ValueError, AssertionError, TypeError, TimeoutError) as e_:
     ck.harness_error('domain randomisation harness: %r' % (e_,))
   finally:
@@ -181,7 +187,31 @@ def run(ck, a):
 
   def rep(ob):
     tag = ob.meta['tag']
-    if tag in ('wrap', 'dr'):
+    if tag == 'dr':
+      env = envs.get_environment('inverted_pendulum', backend='spring')
+      base_sys = env.unwrapped.sys
+      scales = jp.array([0.5, 2.0])
+      def rand_fn(sys):
+        mass = sys.link.inertia.mass[None, :] * scales[:, None]
+        in_axes = jax.tree.map(lambda x: None, sys)
+        in_axes = in_axes.tree_replace({'link.inertia.mass': 0})
+        return sys.tree_replace({'link.inertia.mass': mass}), in_axes
+      dr = training.DomainRandomizationVmapWrapper(env, rand_fn)
+      rk = jax.random.split(jax.random.PRNGKey(5), 2)
+      acts = jp.array([[0.7], [-0.4]])
+      st = dr.reset(rk)
+      st2 = dr.step(st, acts)
+      env.unwrapped.sys = base_sys
+      i = ob.meta['member']
+      env.unwrapped.sys = base_sys.tree_replace({'link.inertia.mass': base_sys.link.inertia.mass * scales[i]})
+      s1 = env.reset(rk[i])
+      s2 = env.step(s1, acts[i])
+      env.unwrapped.sys = base_sys
+      err = max(float(jp.abs(st2.pipeline_state.qd[i] - s2.pipeline_state.qd).max()), float(jp.abs(st2.obs[i] - s2.obs).max()), float(jp.abs(st.pipeline_state.mass[i] - s1.pipeline_state.mass).max()))
+      if err > 1e-9:
+        return True, {'env': 'inverted_pendulum/spring', 'member': i, 'mass_scale': float(scales[i]), 'action': float(acts[i, 0]), 'max_difference_between_wrapped_member_and_solo_env': err}
+      return False, {'why': 'wrapped member equals the solo environment on the concrete run'}
+    if tag == 'wrap':
       return True, {'model': ob.model, 'note': 'two-program identity violated on the traced wrapper code (solver model above)'}
     xml, pname = replay[tag]
     mod = dict(pipes)[pname]
